@@ -1,6 +1,7 @@
 package walfault
 
 import (
+	"encoding/json"
 	"fmt"
 	"io"
 	"math"
@@ -23,7 +24,8 @@ type Violation struct {
 	Observed string            `json:"observed"`
 	Accepted string            `json:"accepted"`
 	Attr     map[string]string `json:"attr,omitempty"`
-	Case     interface{}       `json:"case,omitempty"`
+	Case     interface{}       `json:"-"`
+	CaseJSON json.RawMessage   `json:"case,omitempty"` // exact (no float64 round trip of 63-bit seeds)
 	SeqNo    int               `json:"seq"`
 	SegSize  int64             `json:"segsize"`
 	Order    int64             `json:"order"`
